@@ -568,7 +568,7 @@ def conc_cases(rng, kind, quick):
     out = []
     keys = [b"a", b"b", b"", b"nokey"]
     vals = [b"v0", b"v1", b"", b"\xc3\xa9", b"w"]
-    n_restore_cases, iters, reps = (16, 10, 10) if quick else (120, 12, 12)
+    n_restore_cases, iters, reps = (24, 10, 10) if quick else (120, 12, 12)
     if kind == "ckv":
         n_restore_cases = n_restore_cases // 4
     # (1) restore of a lagging replica, again and again, while its lookups go on
@@ -1041,10 +1041,8 @@ def run(ck):
         text = "%s (%d observations in %d cases)" % (race[0].what, len(race), len({f.case.cid for f in race}))
         if listed.get(CLOSE_RACE_ID) == "open":
             ck.known(CLOSE_RACE_ID, text)
-        elif CLOSE_RACE_ID in listed:          # recorded as repaired: the panic is back
+        else:                                  # recorded as repaired (fix: 5766737): the panic is back
             real += race
-        else:                                  # not yet decided by the coordinator: tolerated, visible in the evidence
-            ck.cov["suspected_defect_not_in_known_findings"] = {"id": CLOSE_RACE_ID, "what": text, "example": race[0].case.replay()["ops"][:6]}
     if known:
         if KNOWN_ID in open_ids:
             w = min(known, key=lambda f: len(f.case.ops))
